@@ -331,3 +331,29 @@ def run_case(case, drv):
     except Exception as ex:  # noqa
         res.fail("sample:sampler-raises", f"sample(sampler) raised {ex!r}")
     return res
+
+
+EXHAUSTIVE_SCOPE = "all expression trees of depth <= 2 over leaves {0, 1}, constants {2 (int), -1/2 (float)} on either side of + - * /, and unary minus; sample size 2"
+
+
+def gen_exhaustive():
+    def trees(depth):
+        if depth == 0:
+            yield ["L", 0]
+            yield ["L", 1]
+            return
+        subs = list(trees(depth - 1))
+        if depth > 1:
+            yield from subs
+        for a in subs:
+            yield ["NEG", a]
+            for op in BIN:
+                for c in (["2", "int"], ["-1/2", "float"]):
+                    yield [op + "SC", a, c]
+                    yield [op + "CS", c, a]
+                for b in subs[:3]:
+                    yield [op + "SS", a, b]
+    for e in trees(2):
+        o = occ(e, {})
+        draws = [[["4", "-2"] for _ in range(o.get(0, 0) + 1)], [["1/2", "8"] for _ in range(o.get(1, 0) + 1)]]
+        yield dict(mode="stub", expr=e, nleaves=2, m=2, draws=draws)
